@@ -35,7 +35,8 @@ func c12MakeGroup(prefix string, silent bool) c12Group {
 		g.total = 5 // nobody of this group voted
 		return g
 	}
-	k := []uint64{1, 4}[ndPick(prefix+"k", 2)]
+	// participation 100%, 25% or 4% of the group (4%: team 25 + one full group 25 + 1 = exactly 51%)
+	k := []uint64{1, 4, 25}[ndPick(prefix+"k", 3)]
 	g.total = g.sum * k
 	return g
 }
@@ -168,13 +169,9 @@ func c12Tally(teamVote, mode int) {
 	}
 	// exact: 25*part/T >= 51  <=>  25*part >= 51*T
 	exactQuorum := part.MulRaw(25).GTE(T.MulRaw(51))
-	clearlyBelow := part.MulRaw(25).MulRaw(1000000).LT(T.MulRaw(51).MulRaw(1000000).Sub(T.MulRaw(4)))
-	if exactQuorum {
-		ndAssert(ndOr(isQuorum, !clearlyBelow), "quorum-reached-gives-a-quorum-result-within-rounding")
-	}
-	if clearlyBelow {
-		ndAssert(!isQuorum, "below-51-percent-is-never-a-quorum-result")
-	}
+	// every ratio of the grid (25/k percent, k in {1,4,25}) is exactly representable at the tally's 10^-6 resolution,
+	// so no tolerance band is needed: quorum result <=> exact participation >= 51%
+	ndAssert(isQuorum == exactQuorum, "quorum-result-iff-participation-at-least-51-percent")
 	// winner has a maximal exact score
 	isS := res == types.VoteResult_SUPPORT || res == types.VoteResult_NO_QUORUM_MAJORITY_SUPPORT
 	isA := res == types.VoteResult_AGAINST || res == types.VoteResult_NO_QUORUM_MAJORITY_AGAINST
